@@ -2,6 +2,7 @@ package rangeproof
 
 import (
 	"fmt"
+	"math"
 	"strconv"
 
 	"github.com/privacybydesign/gabi/big"
@@ -216,6 +217,12 @@ func newWithParams(index, sign int, a uint, k *big.Int, split SquareSplitter, nS
 	}
 	if sign != 1 && sign != -1 {
 		return nil, ErrUnsupportedSign
+	}
+	// The factor is used below as (the absolute value of) a signed 64-bit exponent. Larger factors
+	// would wrap around, so that the relation being proven would no longer be the one reported by
+	// ProvenStatement() and ProvesStatement().
+	if uint64(a) > math.MaxInt64 {
+		return nil, errors.New("factor too large")
 	}
 
 	var exp *big.Int
